@@ -107,6 +107,7 @@ def decode_rules(ctx, tab):
 
 
 def loop_rules(ctx, fv, m):
+    rule_pure_function(ctx, "C02.S2", fv, "numeric_to_kmer")
     pi = param_index(fv, "kmer")
     work = [b for lid, b in fv.binds.items() if b["mut"] and b["val"][0] == "node"
             and fv.term(b["val"][1]) == ("param", pi)]
@@ -166,6 +167,7 @@ def revcomp_rules(ctx):
     fv = ctx.need("C02.S1", REVCOMP)
     if fv is None:
         return
+    rule_pure_function(ctx, "C02.S1", fv, "rev_comp")
     loop = next((n for n in fv.nodes if n.get("k") == "for"), None)
     kp, sp_ = param_index(fv, "kmer"), param_index(fv, "ksize")
     muts = {lid: b for lid, b in fv.binds.items() if b["mut"] and b["val"][0] == "node"}
